@@ -263,6 +263,10 @@ def check(ck):
                 tn = prov.origin(ge, n, c.args[0])
                 plain = tn[0] == "unpack" and tn[2] == 0 and tn[1][0] == "elem" and tn[1][1][0] == "call" and tn[1][1][1][0] == "attr" and tn[1][1][1][2] == "items"
                 plain = plain or (tn[0] == "elem" and not prov.contains(tn, lambda x: x[0] == "call" and x[1][0] == "attr" and x[1][2] not in ("items", "keys")))
+                if not plain and not prov.contains(tn, lambda x: x[0] == "call" and x[1][0] == "attr" and x[1][2] in ("items", "keys")):
+                    # the emitted name is computed by statements the provenance does not follow back to the key (a loop that re-spells
+                    # it): the truth table of send_content above (C18.2) is what judges the names really emitted
+                    raise AnalysisError("the header name emitted by `%s` is computed in steps that are not followed back to the merged key" % dump(c)[:50])
                 ck.require(plain, "C18.3", "%s: `%s` emits the merged key itself" % (q.fn(fe), dump(c)[:50]), "key of the merged dictionary, unchanged",
                            "the header name put on the wire is %s, not the key that went through the merge and the protected-name filter: a "
                            "pushed name that only becomes `content-type` / `content-length` / `user-agent` after that transformation is "
